@@ -188,11 +188,15 @@ for _cls, _mod in (('Client', 'client'), ('AsyncClient', 'async_client')):
     c.check_before('if not packets:', 'batch-is-exactly-what-was-taken-in-order',
                    'self.queue.taken == taken0 + packets and '
                    'forall(lambda k: packets[k] is not None, 0, len(packets))', props=['C09', 'C10'])
-    c.ghost_before('p = payload.Payload(packets=packets)', 'bodies0', 'http_bodies')
-    c.check_before('p = payload.Payload(packets=packets)', 'post-batch-within-server-limit',
-                   'len(packets) <= 16', props=['C10'])
+    c.ghost_before('timeout = max(self.ping_interval, self.ping_timeout) + 5', 'bodies0',
+                   'http_bodies')
+    c.check_before("if self.current_transport == 'polling':", 'post-batch-within-server-limit',
+                   "implies(self.current_transport == 'polling', len(packets) <= 16)", props=['C10'])
     c.check_before('for pkt in packets: self.queue.task_done()', 'one-post-carries-the-batch-in-order',
-                   'http_bodies == bodies0 + [payload_text(packets, len(packets))]', props=['C09', 'C10'])
+                   'len(http_bodies) == len(bodies0) + 1 and '
+                   'http_bodies[0:len(bodies0)] == bodies0 and '
+                   'http_bodies[len(bodies0)] == payload_text(packets, len(packets))',
+                   props=['C09', 'C10'])
     c.loop(2, index='j', invariants=[
         ('every-packet-of-the-batch-is-marked-done-once',
          'self.queue is not None and self.queue.unf >= len(self.queue.items) + len(packets) - j')],
